@@ -339,17 +339,7 @@ def check_signal_after_change(ctx):
     av = ctx.fn("ldb_versions_append_version", "src/version_set.c")
     bg.check("T11-signal-after-change", "version-install", av, _store("current", "vset"),
              "installing a new version (level-0 file count)")
-    # the cancelling store in ldb_test_compact_range: listed exception, but confined
-    tr = ctx.fn("ldb_test_compact_range", DB)
-    cancel = [(b, i, e) for (b, i, e) in tr.events("asg") if key(e["lhs"]) == "db->manual_compaction" and const_val(e["rhs"]) == 0]
-    ctx.require(len(cancel) == 1, "ldb_test_compact_range: cancelling store not found")
-    atoms = xgraph(P, tr).must_at(cancel[0][0], cancel[0][1])
-    ctx.check(holds(atoms, ("==", "db->manual_compaction", "(&manual)")) and
-              holds(atoms, ("==", "db->background_compaction_scheduled", "0")),
-              "T11-signal-after-change", "manual-cancel(exception)", tr.name, site(tr, cancel[0][2]),
-              "listed exception: reached only after the error/shutdown ended the wait loop and no background "
-              "call is running; other waiters are released by their own predicate",
-              "the cancelling store is reachable while a background call may still run")
+    check_manual_cancel(ctx)
     # writer queue
     wq = SignalAfter(ctx, "ready->cv", edge_ok=lambda c, p: rel_edge(c, p, "==", "ready", "(&w)"))
     w = ctx.fn("ldb_write", DB)
@@ -442,6 +432,24 @@ def check_exits(ctx):
     wt = ctx.fn("worker_thread", "src/util/thread_pool.c")
     must_pass_before_success(ctx, "T2-pool-handshake", "worker-exit", wt, None, _dec("running"),
                              "a leaving worker decrements the running count", success=lambda e, st: True)
+
+
+def check_manual_cancel(ctx):
+    """The manual-compaction request is an object on the caller's stack that
+    the background thread reaches through db->manual_compaction: the caller
+    withdraws it (and returns, ending its lifetime) only once no background
+    call is scheduled or running.  Shared with C10 (use after scope)."""
+    P = ctx.P
+    tr = ctx.fn("ldb_test_compact_range", DB)
+    cancel = [(b, i, e) for (b, i, e) in tr.events("asg") if key(e["lhs"]) == "db->manual_compaction" and const_val(e["rhs"]) == 0]
+    ctx.require(len(cancel) == 1, "ldb_test_compact_range: cancelling store not found")
+    atoms = xgraph(P, tr).must_at(cancel[0][0], cancel[0][1])
+    ctx.check(holds(atoms, ("==", "db->manual_compaction", "(&manual)")) and
+              holds(atoms, ("==", "db->background_compaction_scheduled", "0")),
+              "T11-signal-after-change", "manual-cancel(exception)", tr.name, site(tr, cancel[0][2]),
+              "listed exception: reached only after the error/shutdown ended the wait loop and no background "
+              "call is running; other waiters are released by their own predicate",
+              "the cancelling store is reachable while a background call may still run")
 
 
 def check_work_scheduled(ctx):
